@@ -9,12 +9,19 @@ open CoapVerif.Model.Retransmit CoapVerif.Generated.Retransmit
 /-! ### the call list -/
 
 /-- Functions used to update a call keep its identity and message. -/
-def Keeps (f : Call → Call) : Prop := ∀ c, (f c).id = c.id ∧ (f c).msg = c.msg
+def Keeps0 (f : Call → Call) : Prop := ∀ c, (f c).id = c.id ∧ (f c).msg = c.msg
 
-theorem keeps_setPhase (p : Phase) : Keeps (setPhase p) := fun _ => ⟨rfl, rfl⟩
-theorem keeps_setBuf (t : Nat) : Keeps (setBuf t) := fun _ => ⟨rfl, rfl⟩
+/-- … and, for the updates the connection itself makes, the caller's message and the ghost flag as well. -/
+def Keeps (f : Call → Call) : Prop :=
+  ∀ c, (f c).id = c.id ∧ (f c).msg = c.msg ∧ (f c).req = c.req ∧ (f c).touched = c.touched
 
-theorem map_id_updCall (cs : List Call) (id : Nat) (f : Call → Call) (hf : Keeps f) :
+theorem Keeps.zero {f : Call → Call} (h : Keeps f) : Keeps0 f := fun c => ⟨(h c).1, (h c).2.1⟩
+
+theorem keeps_setPhase (p : Phase) : Keeps (setPhase p) := fun _ => ⟨rfl, rfl, rfl, rfl⟩
+theorem keeps_setBuf (t : Nat) : Keeps (setBuf t) := fun _ => ⟨rfl, rfl, rfl, rfl⟩
+theorem keeps0_editReq (m : Nat) : Keeps0 (editReq m) := fun _ => ⟨rfl, rfl⟩
+
+theorem map_id_updCall (cs : List Call) (id : Nat) (f : Call → Call) (hf : Keeps0 f) :
     (updCall cs id f).map (·.id) = cs.map (·.id) := by
   unfold updCall
   induction cs with
@@ -203,12 +210,14 @@ structure Inv (P : Params) (s : State) : Prop where
   ns : inflight s.calls ≤ P.nstart
   wr : ∀ c ∈ s.calls, c.phase = .waitResp → c.buf = none
   rt : ∀ id r t, Entry.ret id r t ∈ s.log → ∃ c ∈ s.calls, c.id = id ∧ c.phase = .done
-  cnt : ∀ e ∈ s.pend, txCount s.log e.id = e.n + 1 ∧ e.n ≤ P.maxRetransmit ∧ Entry.tx e.id 0 e.start e.msg ∈ s.log
+  cnt : ∀ e ∈ s.pend, txCount s.log e.id = e.n + 1 ∧ e.n ≤ P.maxRetransmit ∧ ∃ m0, Entry.tx e.id 0 e.start m0 ∈ s.log
   bound : ∀ id, txCount s.log id ≤ P.maxRetransmit + 1
   ws : ∀ c ∈ s.calls, c.phase = .waitSem → txCount s.log c.id = 0
   unk : ∀ id, (∀ c ∈ s.calls, c.id ≠ id) → txCount s.log id = 0
-  sp : ∀ id k t m, Entry.tx id k t m ∈ s.log → k ≤ P.maxRetransmit ∧ (∃ c ∈ s.calls, c.id = id ∧ c.msg = m) ∧
-        (1 ≤ k → ∃ t0, Entry.tx id 0 t0 m ∈ s.log ∧ t0 + k * P.ackTimeout < t)
+  sp : ∀ id k t m, Entry.tx id k t m ∈ s.log → k ≤ P.maxRetransmit ∧
+        (∃ c ∈ s.calls, c.id = id ∧ (1 ≤ k → c.msg = m) ∧ (k = 0 → c.touched = false → c.msg = m)) ∧
+        (1 ≤ k → ∃ t0 m0, Entry.tx id 0 t0 m0 ∈ s.log ∧ t0 + k * P.ackTimeout < t)
+  ut : ∀ c ∈ s.calls, c.touched = false → c.phase = .waitSem → c.req = c.msg
   lab : Lab s.log
   qt : Quiet s.log
   sw : ∀ id t, Entry.stop id t ∈ s.log → ∃ c ∈ s.calls, c.id = id ∧ (c.phase = .waitResp ∨ c.phase = .done)
@@ -227,6 +236,7 @@ theorem inv_init (P : Params) : Inv P init where
   ws := by intro c hc; cases hc
   unk := by intro id _; simp [init, txCount]
   sp := by intro id k t m h; cases h
+  ut := by intro c hc; cases hc
   lab := trivial
   qt := trivial
   sw := by intro id t h; cases h
@@ -235,10 +245,10 @@ theorem inv_init (P : Params) : Inv P init where
 
 /-- Time passes. -/
 theorem inv_advance {P : Params} {s : State} (h : Inv P s) (d : Nat) : Inv P { s with now := s.now + d } :=
-  ⟨h.ids, h.pid, h.pa, h.ns, h.wr, h.rt, h.cnt, h.bound, h.ws, h.unk, h.sp, h.lab, h.qt, h.sw, h.src1, h.src2⟩
+  ⟨h.ids, h.pid, h.pa, h.ns, h.wr, h.rt, h.cnt, h.bound, h.ws, h.unk, h.sp, h.ut, h.lab, h.qt, h.sw, h.src1, h.src2⟩
 
 /-- Updating one call in place. -/
-theorem inv_updCall {P : Params} {s : State} (h : Inv P s) (id : Nat) (f : Call → Call) (hf : Keeps f)
+theorem inv_updCall' {P : Params} {s : State} (h : Inv P s) (id : Nat) (f : Call → Call) (hf : Keeps0 f)
     (hpa : ∀ e ∈ s.pend, e.id = id → ∀ c, c.phase = .waitAck → (f c).phase = .waitAck)
     (hns : inflight (updCall s.calls id f) ≤ P.nstart)
     (hwr : ∀ c ∈ s.calls, c.id = id → (f c).phase = .waitResp → (f c).buf = none)
@@ -246,7 +256,9 @@ theorem inv_updCall {P : Params} {s : State} (h : Inv P s) (id : Nat) (f : Call 
     (hws : ∀ c ∈ s.calls, c.id = id → (f c).phase = .waitSem → c.phase = .waitSem)
     (hsw : ∀ c ∈ s.calls, c.id = id → (c.phase = .waitResp ∨ c.phase = .done) →
       ((f c).phase = .waitResp ∨ (f c).phase = .done))
-    (hbuf : ∀ c ∈ s.calls, c.id = id → ∀ tag, (f c).buf = some tag → c.buf = some tag ∨ Entry.got id tag ∈ s.log) :
+    (hbuf : ∀ c ∈ s.calls, c.id = id → ∀ tag, (f c).buf = some tag → c.buf = some tag ∨ Entry.got id tag ∈ s.log)
+    (htouch : ∀ c ∈ s.calls, c.id = id → (f c).touched = false →
+      c.touched = false ∧ ((f c).phase = .waitSem → (f c).req = c.req)) :
     Inv P { s with calls := updCall s.calls id f } where
   ids := by simp only; rw [map_id_updCall _ _ _ hf]; exact h.ids
   pid := h.pid
@@ -293,11 +305,22 @@ theorem inv_updCall {P : Params} {s : State} (h : Inv P s) (id : Nat) (f : Call 
       exact hi _ this heq
   sp := by
     intro i k t m hm
-    obtain ⟨h1, ⟨c, hc, h2, h3⟩, h4⟩ := h.sp i k t m hm
+    obtain ⟨h1, ⟨c, hc, h2, h3, h3'⟩, h4⟩ := h.sp i k t m hm
     refine ⟨h1, ⟨_, mem_updCall_of_mem id f hc, ?_⟩, h4⟩
     by_cases hid : c.id = id
-    · simp only [hid, if_true]; exact ⟨by rw [(hf c).1]; exact h2, by rw [(hf c).2]; exact h3⟩
-    · simp only [hid, if_false]; exact ⟨h2, h3⟩
+    · simp only [hid, if_true]
+      refine ⟨by rw [(hf c).1]; exact h2, fun hk => by rw [(hf c).2]; exact h3 hk, fun hk ht => ?_⟩
+      rw [(hf c).2]; exact h3' hk (htouch c hc hid ht).1
+    · simp only [hid, if_false]; exact ⟨h2, h3, h3'⟩
+  ut := by
+    intro c' hc' ht hp
+    obtain ⟨c, hc, rfl⟩ := mem_updCall hc'
+    by_cases hid : c.id = id
+    · simp only [hid, if_true] at ht hp ⊢
+      obtain ⟨t1, t2⟩ := htouch c hc hid ht
+      rw [t2 hp, (hf c).2]
+      exact h.ut c hc t1 (hws c hc hid hp)
+    · simp only [hid, if_false] at ht hp ⊢; exact h.ut c hc ht hp
   lab := h.lab
   qt := h.qt
   sw := by
@@ -319,6 +342,20 @@ theorem inv_updCall {P : Params} {s : State} (h : Inv P s) (id : Nat) (f : Call 
       · rw [hid]; exact h1
     · simp only [hid, if_false] at hb ⊢; exact h.src2 c hc tag hb
 
+/-- The same for the updates the connection makes itself (they do not touch the caller's message). -/
+theorem inv_updCall {P : Params} {s : State} (h : Inv P s) (id : Nat) (f : Call → Call) (hf : Keeps f)
+    (hpa : ∀ e ∈ s.pend, e.id = id → ∀ c, c.phase = .waitAck → (f c).phase = .waitAck)
+    (hns : inflight (updCall s.calls id f) ≤ P.nstart)
+    (hwr : ∀ c ∈ s.calls, c.id = id → (f c).phase = .waitResp → (f c).buf = none)
+    (hrt : ∀ c ∈ s.calls, c.id = id → c.phase = .done → (f c).phase = .done)
+    (hws : ∀ c ∈ s.calls, c.id = id → (f c).phase = .waitSem → c.phase = .waitSem)
+    (hsw : ∀ c ∈ s.calls, c.id = id → (c.phase = .waitResp ∨ c.phase = .done) →
+      ((f c).phase = .waitResp ∨ (f c).phase = .done))
+    (hbuf : ∀ c ∈ s.calls, c.id = id → ∀ tag, (f c).buf = some tag → c.buf = some tag ∨ Entry.got id tag ∈ s.log) :
+    Inv P { s with calls := updCall s.calls id f } :=
+  inv_updCall' h id f hf.zero hpa hns hwr hrt hws hsw hbuf
+    (fun c _ _ ht => ⟨by rw [← (hf c).2.2.2]; exact ht, fun _ => (hf c).2.2.1⟩)
+
 /-- Adding a log entry that is not a transmission (a return or a ghost entry). -/
 theorem inv_addEntry {P : Params} {s : State} (h : Inv P s) (x : Entry) (hx : NotTx x)
     (hret : ∀ id r t, x = .ret id r t → ∃ c ∈ s.calls, c.id = id ∧ c.phase = .done)
@@ -337,8 +374,8 @@ theorem inv_addEntry {P : Params} {s : State} (h : Inv P s) (x : Entry) (hx : No
     | tail _ hm => exact h.rt i r' t' hm
   cnt := by
     intro e he
-    obtain ⟨h1, h2, h3⟩ := h.cnt e he
-    exact ⟨by simp only [txCount_cons_notTx _ _ _ hx]; exact h1, h2, List.mem_cons_of_mem _ h3⟩
+    obtain ⟨h1, h2, m0, h3⟩ := h.cnt e he
+    exact ⟨by simp only [txCount_cons_notTx _ _ _ hx]; exact h1, h2, m0, List.mem_cons_of_mem _ h3⟩
   bound := by intro i; simp only [txCount_cons_notTx _ _ _ hx]; exact h.bound i
   ws := by intro c hc hp; simp only [txCount_cons_notTx _ _ _ hx]; exact h.ws c hc hp
   unk := by intro i hi; simp only [txCount_cons_notTx _ _ _ hx]; exact h.unk i hi
@@ -349,8 +386,9 @@ theorem inv_addEntry {P : Params} {s : State} (h : Inv P s) (x : Entry) (hx : No
     | tail _ hm =>
       obtain ⟨h1, h2, h3⟩ := h.sp i k t' m hm
       refine ⟨h1, h2, fun hk => ?_⟩
-      obtain ⟨t0, h5, h6⟩ := h3 hk
-      exact ⟨t0, List.mem_cons_of_mem _ h5, h6⟩
+      obtain ⟨t0, m0, h5, h6⟩ := h3 hk
+      exact ⟨t0, m0, List.mem_cons_of_mem _ h5, h6⟩
+  ut := h.ut
   lab := lab_cons_notTx x hx h.lab
   qt := quiet_cons_notTx x hx h.qt
   sw := by
@@ -401,6 +439,7 @@ theorem inv_dropPend {P : Params} {s : State} (h : Inv P s) (id : Nat) : Inv P {
   ws := h.ws
   unk := h.unk
   sp := h.sp
+  ut := h.ut
   lab := h.lab
   qt := h.qt
   sw := h.sw
@@ -460,8 +499,9 @@ theorem no_stop_of_phase {P : Params} {s : State} (h : Inv P s) {c : Call} (hc :
 
 /-- First transmission of a call that just got its slot. -/
 theorem inv_addTx0 {P : Params} {s : State} (h : Inv P s) (c : Call) (hc : c ∈ s.calls) (hph : c.phase = .waitAck)
-    (h0 : txCount s.log c.id = 0) (hnp : ∀ e ∈ s.pend, e.id ≠ c.id) (t : Nat) (dl : Option Nat) :
-    Inv P { s with pend := s.pend ++ [⟨c.id, t, dl, 0, c.msg⟩], log := .tx c.id 0 t c.msg :: s.log } where
+    (h0 : txCount s.log c.id = 0) (hnp : ∀ e ∈ s.pend, e.id ≠ c.id) (t : Nat) (dl : Option Nat)
+    (hreq : c.touched = false → c.req = c.msg) :
+    Inv P { s with pend := s.pend ++ [⟨c.id, t, dl, 0, c.msg⟩], log := .tx c.id 0 t c.req :: s.log } where
   ids := h.ids
   pid := by
     simp only [List.map_append, List.map_cons, List.map_nil]
@@ -486,11 +526,11 @@ theorem inv_addTx0 {P : Params} {s : State} (h : Inv P s) (c : Call) (hc : c ∈
   cnt := by
     intro e he
     rcases List.mem_append.mp he with he | he
-    · obtain ⟨h1, h2, h3⟩ := h.cnt e he
+    · obtain ⟨h1, h2, m0, h3⟩ := h.cnt e he
       have hne : ¬ c.id = e.id := fun heq => hnp e he heq.symm
-      exact ⟨by simp only [txCount_cons_tx, hne, if_false]; exact h1, h2, List.mem_cons_of_mem _ h3⟩
+      exact ⟨by simp only [txCount_cons_tx, hne, if_false]; exact h1, h2, m0, List.mem_cons_of_mem _ h3⟩
     · simp at he; subst he
-      exact ⟨by simp only [txCount_cons_tx, if_true, h0], Nat.zero_le _, List.mem_cons_self⟩
+      exact ⟨by simp only [txCount_cons_tx, if_true, h0], Nat.zero_le _, c.req, List.mem_cons_self⟩
   bound := by
     intro i
     simp only [txCount_cons_tx]
@@ -513,12 +553,13 @@ theorem inv_addTx0 {P : Params} {s : State} (h : Inv P s) (c : Call) (hc : c ∈
   sp := by
     intro i k t' m hm
     cases hm with
-    | head => exact ⟨Nat.zero_le _, ⟨c, hc, rfl, rfl⟩, fun hk => by omega⟩
+    | head => exact ⟨Nat.zero_le _, ⟨c, hc, rfl, fun hk => by omega, fun _ ht => (hreq ht).symm⟩, fun hk => by omega⟩
     | tail _ hm =>
       obtain ⟨h1, h2, h3⟩ := h.sp i k t' m hm
       refine ⟨h1, h2, fun hk => ?_⟩
-      obtain ⟨t0, h5, h6⟩ := h3 hk
-      exact ⟨t0, List.mem_cons_of_mem _ h5, h6⟩
+      obtain ⟨t0, m0, h5, h6⟩ := h3 hk
+      exact ⟨t0, m0, List.mem_cons_of_mem _ h5, h6⟩
+  ut := h.ut
   lab := ⟨h0.symm, h.lab⟩
   qt := ⟨no_stop_of_phase h hc (Or.inr hph), h.qt⟩
   sw := by
@@ -563,6 +604,7 @@ theorem inv_admitNext {P : Params} {s : State} (h : Inv P s) : Inv P (admitNext 
         have := mem_updCall_of_mem c.id (setPhase .waitAck) hc
         simpa using this
       exact inv_addTx0 h1 (setPhase .waitAck c) hc' rfl (h.ws c hc hph) hnp s.now c.deadline
+        (fun ht => h.ut c hc ht hph)
   · simp only [hlt, if_false]; exact h
 
 /-- No pending entry belongs to a call that is not waiting for its acknowledgement. -/
@@ -710,7 +752,7 @@ theorem inv_cancel {P : Params} {s : State} (h : Inv P s) (id : Nat) (why : Why)
 /-- A new call is registered (it either waits for a slot or has failed at once). -/
 theorem inv_addCall {P : Params} {s : State} (h : Inv P s) (id msg : Nat) (dl : Option Nat) (ph : Phase)
     (hnew : ∀ c ∈ s.calls, c.id ≠ id) (hph : ph = .waitSem ∨ ph = .done) :
-    Inv P { s with calls := s.calls ++ [⟨id, msg, dl, ph, none⟩] } where
+    Inv P { s with calls := s.calls ++ [⟨id, msg, dl, ph, none, msg, false⟩] } where
   ids := by
     simp only [List.map_append, List.map_cons, List.map_nil]
     rw [List.nodup_append]
@@ -725,7 +767,7 @@ theorem inv_addCall {P : Params} {s : State} (h : Inv P s) (id msg : Nat) (dl : 
     obtain ⟨c, hc, h1⟩ := h.pa e he
     exact ⟨c, List.mem_append_left _ hc, h1⟩
   ns := by
-    have : inflight (s.calls ++ [⟨id, msg, dl, ph, none⟩]) = inflight s.calls := by
+    have : inflight (s.calls ++ [⟨id, msg, dl, ph, none, msg, false⟩]) = inflight s.calls := by
       unfold inflight
       rw [List.countP_append]
       rcases hph with hp | hp <;> subst hp <;> simp [List.countP_cons]
@@ -753,6 +795,11 @@ theorem inv_addCall {P : Params} {s : State} (h : Inv P s) (id msg : Nat) (dl : 
     intro i k t m hm
     obtain ⟨h1, ⟨c, hc, h2⟩, h3⟩ := h.sp i k t m hm
     exact ⟨h1, ⟨c, List.mem_append_left _ hc, h2⟩, h3⟩
+  ut := by
+    intro c hc ht hp
+    rcases List.mem_append.mp hc with hc | hc
+    · exact h.ut c hc ht hp
+    · simp at hc; subst hc; rfl
   lab := h.lab
   qt := h.qt
   sw := by
@@ -989,7 +1036,7 @@ theorem inv_tick {P : Params} {s : State} (h : Inv P s) (ahead : Nat) : Inv P (t
     intro x hx
     obtain ⟨e, _, _, rfl⟩ := hlog x hx
     exact ⟨_, _, _, _, rfl⟩
-  refine ⟨h.ids, ?_, ?_, h.ns, h.wr, ?_, ?_, ?_, ?_, ?_, ?_, ?_, ?_, ?_, ?_, ?_⟩
+  refine ⟨h.ids, ?_, ?_, h.ns, h.wr, ?_, ?_, ?_, ?_, ?_, ?_, h.ut, ?_, ?_, ?_, ?_, ?_⟩
   · exact List.Nodup.sublist (tick_ids_sublist P t s.pend) h.pid
   · intro e' he'
     obtain ⟨e, he, _, hh⟩ := hmem e' he'
@@ -1004,15 +1051,15 @@ theorem inv_tick {P : Params} {s : State} (h : Inv P s) (ahead : Nat) : Inv P (t
     · exact h.rt i r t' hm
   · intro e' he'
     obtain ⟨e, he, hd, hh⟩ := hmem e' he'
-    obtain ⟨c1, c2, c3⟩ := h.cnt e he
+    obtain ⟨c1, c2, m0, c3⟩ := h.cnt e he
     rcases hh with ⟨hdue, heq⟩ | ⟨hdue, heq⟩
     · rw [heq]
-      refine ⟨?_, c2, List.mem_append_right _ c3⟩
+      refine ⟨?_, c2, m0, List.mem_append_right _ c3⟩
       rw [hone e he]; simp [bumped, hdue]; exact c1
     · have hlt := lt_of_not_exhausted (P := P) (n := e.n) (by
         simp only [dropped, Bool.or_eq_false_iff] at hd; exact hd.2)
       rw [heq]
-      refine ⟨?_, by simp only; omega, List.mem_append_right _ c3⟩
+      refine ⟨?_, by simp only; omega, m0, List.mem_append_right _ c3⟩
       simp only
       rw [hone e he]; simp [bumped, hdue, hd]; omega
   · intro id
@@ -1050,12 +1097,13 @@ theorem inv_tick {P : Params} {s : State} (h : Inv P s) (ahead : Nat) : Inv P (t
       have hlt := lt_of_not_exhausted (P := P) (n := e.n) (by
         have := hb.1; simp only [dropped, Bool.or_eq_false_iff] at this; exact this.2)
       obtain ⟨c, hc, h1, _, h3⟩ := h.pa e he
-      obtain ⟨_, _, c3⟩ := h.cnt e he
-      refine ⟨by omega, ⟨c, hc, h1, h3⟩, fun _ => ⟨e.start, List.mem_append_right _ c3, spacing_of_due hb.2⟩⟩
+      obtain ⟨_, _, m0, c3⟩ := h.cnt e he
+      refine ⟨by omega, ⟨c, hc, h1, fun _ => h3, fun hk0 => by omega⟩,
+        fun _ => ⟨e.start, m0, List.mem_append_right _ c3, spacing_of_due hb.2⟩⟩
     · obtain ⟨h1, h2, h3⟩ := h.sp i k t' m hm
       refine ⟨h1, h2, fun hk => ?_⟩
-      obtain ⟨t0, h5, h6⟩ := h3 hk
-      exact ⟨t0, List.mem_append_right _ h5, h6⟩
+      obtain ⟨t0, m0, h5, h6⟩ := h3 hk
+      exact ⟨t0, m0, List.mem_append_right _ h5, h6⟩
   · exact lab_tick P t s.log h.lab s.pend h.pid (fun e he => (h.cnt e he).1)
   · refine quiet_tick P t s.log h.qt s.pend ?_
     intro e he
@@ -1074,6 +1122,31 @@ theorem inv_tick {P : Params} {s : State} (h : Inv P s) (ahead : Nat) : Inv P (t
     · exact List.mem_append_right _ (h.src1 i tag t' hm)
   · exact fun c hc tag hb => List.mem_append_right _ (h.src2 c hc tag hb)
 
+theorem inflight_editReq (cs : List Call) (id m : Nat) : inflight (updCall cs id (editReq m)) = inflight cs := by
+  unfold inflight updCall
+  rw [List.countP_map]
+  apply List.countP_congr
+  intro x _
+  by_cases h : x.id = id
+  · simp [h, editReq]
+  · simp [h]
+
+/-- The caller edits the message it handed to `Do`: the clone, the phase and the channel are untouched; the ghost flag
+    records an edit made while the call was queued. -/
+theorem inv_editReq {P : Params} {s : State} (h : Inv P s) (id m : Nat) :
+    Inv P { s with calls := updCall s.calls id (editReq m) } :=
+  inv_updCall' h id (editReq m) (keeps0_editReq m)
+    (fun _ _ _ _ hp => hp)
+    (by rw [inflight_editReq]; exact h.ns)
+    (fun c hc _ hp => h.wr c hc hp)
+    (fun _ _ _ hp => hp)
+    (fun _ _ _ hp => hp)
+    (fun _ _ _ hp => hp)
+    (fun _ _ _ _ hb => Or.inl hb)
+    (fun c _ _ ht => by
+      simp only [editReq, Bool.or_eq_false_iff, beq_eq_false_iff_ne] at ht
+      exact ⟨ht.1, fun hp => (ht.2 hp).elim⟩)
+
 theorem inv_step {P : Params} {s : State} (h : Inv P s) (e : Ev) : Inv P (step P s e) := by
   cases e with
   | send id msg dl => exact inv_send h id msg dl
@@ -1082,7 +1155,7 @@ theorem inv_step {P : Params} {s : State} (h : Inv P s) (e : Ev) : Inv P (step P
   | recvMid id k => exact inv_recvMid h id k
   | resp id tag => exact inv_deliver h id tag
   | cancel id why => exact inv_cancel h id why
-  | «mut» id msg => exact h
+  | «mut» id msg => exact inv_editReq h id msg
 
 theorem inv_runFrom {P : Params} (evs : List Ev) : ∀ s, Inv P s → Inv P (runFrom P s evs) := by
   induction evs with
@@ -1363,6 +1436,134 @@ theorem now_ackedPre (s : State) (c : Call) : (ackedPre s c).now = s.now := by
 theorem now_acked {P : Params} (s : State) (c : Call) : (acked P s c).now = s.now := by
   unfold acked
   rw [now_admitNext, now_ackedPre]
+
+/-! ### the ghost flag `touched` is set by an edit of a queued request only -/
+
+/-- Every call flagged in `cs'` was already flagged in `cs`. -/
+def Stable (cs cs' : List Call) : Prop := ∀ c' ∈ cs', c'.touched = true → ∃ c ∈ cs, c.id = c'.id ∧ c.touched = true
+
+theorem stable_refl (cs : List Call) : Stable cs cs := fun c hc ht => ⟨c, hc, rfl, ht⟩
+
+theorem stable_trans {a b c : List Call} (h1 : Stable a b) (h2 : Stable b c) : Stable a c := by
+  intro x hx ht
+  obtain ⟨y, hy, hid, hyt⟩ := h2 x hx ht
+  obtain ⟨z, hz, hid', hzt⟩ := h1 y hy hyt
+  exact ⟨z, hz, by rw [hid', hid], hzt⟩
+
+theorem stable_updCall (cs : List Call) (id : Nat) (f : Call → Call) (hf : Keeps f) : Stable cs (updCall cs id f) := by
+  intro c' hc' ht
+  obtain ⟨c, hc, rfl⟩ := mem_updCall hc'
+  by_cases hid : c.id = id
+  · simp only [hid, if_true] at ht ⊢
+    exact ⟨c, hc, ((hf c).1).symm, by rw [← (hf c).2.2.2]; exact ht⟩
+  · simp only [hid, if_false] at ht ⊢
+    exact ⟨c, hc, rfl, ht⟩
+
+theorem stable_admitNext (P : Params) (s : State) : Stable s.calls (admitNext P s).calls := by
+  unfold admitNext
+  split
+  · split
+    · exact stable_updCall _ _ _ (keeps_setPhase _)
+    · exact stable_refl _
+  · exact stable_refl _
+
+theorem stable_finish (s : State) (id : Nat) (r : Res) : Stable s.calls (finish s id r).calls :=
+  stable_updCall _ _ _ (keeps_setPhase _)
+
+theorem stable_acked (P : Params) (s : State) (c : Call) : Stable s.calls (acked P s c).calls := by
+  unfold acked
+  refine stable_trans ?_ (stable_admitNext P _)
+  unfold ackedPre
+  cases c.buf with
+  | none => exact stable_updCall _ _ _ (keeps_setPhase _)
+  | some tag => exact stable_updCall _ _ _ (keeps_setPhase _)
+
+theorem stable_deliver (P : Params) (s : State) (id tag : Nat) : Stable s.calls (deliver P s id tag).calls := by
+  unfold deliver
+  cases findCall s.calls id with
+  | none => exact stable_refl _
+  | some c =>
+    simp only
+    cases c.phase <;> simp only
+    · cases c.buf <;> simp only
+      · have h1 : Stable s.calls (updCall s.calls id (setBuf tag)) := stable_updCall _ _ _ (keeps_setBuf _)
+        simpa using h1
+      · exact stable_refl _
+    · cases c.buf <;> simp only
+      · have h1 : Stable s.calls (updCall s.calls id (setBuf tag)) := stable_updCall _ _ _ (keeps_setBuf _)
+        split
+        · exact stable_trans h1 (stable_acked P _ _)
+        · exact h1
+      · exact stable_refl _
+    · exact stable_updCall _ _ _ (keeps_setPhase _)
+    · exact stable_refl _
+
+theorem stable_step (P : Params) (s : State) (e : Ev) :
+    ∀ c' ∈ (step P s e).calls, c'.touched = true →
+      (∃ c ∈ s.calls, c.id = c'.id ∧ c.touched = true) ∨ ∃ m, e = .mut c'.id m := by
+  intro c' hc' ht
+  cases e with
+  | send id msg dl =>
+    simp only [step, send] at hc'
+    split at hc'
+    · exact Or.inl ⟨c', hc', rfl, ht⟩
+    · split at hc'
+      · rcases List.mem_append.mp hc' with h | h
+        · exact Or.inl ⟨c', h, rfl, ht⟩
+        · simp at h; subst h; cases ht
+      · obtain ⟨c, hc, hid, hct⟩ := stable_admitNext P _ c' hc' ht
+        rcases List.mem_append.mp hc with h | h
+        · exact Or.inl ⟨c, h, hid, hct⟩
+        · simp at h; subst h; cases hct
+  | advance d => exact Or.inl ⟨c', hc', rfl, ht⟩
+  | tick ahead => exact Or.inl ⟨c', hc', rfl, ht⟩
+  | recvMid id k =>
+    simp only [step, recvMid] at hc'
+    have h1 : Stable s.calls (if isPending s.pend id then
+        (match findCall s.calls id with | some c => acked P s c | none => s) else s).calls := by
+      split
+      · cases findCall s.calls id with
+        | none => exact stable_refl _
+        | some c => exact stable_acked P s c
+      · exact stable_refl _
+    cases k with
+    | ack => exact Or.inl (h1 c' hc' ht)
+    | rst => exact Or.inl (h1 c' hc' ht)
+    | pig tag => exact Or.inl (stable_trans h1 (stable_deliver P _ id tag) c' hc' ht)
+  | resp id tag => exact Or.inl (stable_deliver P s id tag c' hc' ht)
+  | cancel id why =>
+    simp only [step, cancel] at hc'
+    cases hf : findCall s.calls id with
+    | none => rw [hf] at hc'; exact Or.inl ⟨c', hc', rfl, ht⟩
+    | some c =>
+      rw [hf] at hc'
+      simp only at hc'
+      cases hph : c.phase <;> rw [hph] at hc' <;> simp only at hc'
+      · exact Or.inl (stable_finish s id why.res c' hc' ht)
+      · have h1 : Stable s.calls (updCall s.calls id (setPhase .done)) := stable_updCall _ _ _ (keeps_setPhase _)
+        exact Or.inl (stable_trans h1 (stable_admitNext P
+          (addStop (finish { s with pend := dropPend s.pend id } id why.res) id)) c' hc' ht)
+      · exact Or.inl (stable_finish s id why.res c' hc' ht)
+      · exact Or.inl ⟨c', hc', rfl, ht⟩
+  | «mut» id msg =>
+    simp only [step] at hc'
+    obtain ⟨c, hc, rfl⟩ := mem_updCall hc'
+    by_cases hid : c.id = id
+    · simp only [hid, if_true] at ht ⊢
+      exact Or.inr ⟨msg, by simp [editReq, hid]⟩
+    · simp only [hid, if_false] at ht ⊢
+      exact Or.inl ⟨c, hc, rfl, ht⟩
+
+theorem touched_runFrom {P : Params} : ∀ (evs : List Ev) (s : State) (c' : Call),
+    c' ∈ (runFrom P s evs).calls → c'.touched = true →
+      (∃ c ∈ s.calls, c.id = c'.id ∧ c.touched = true) ∨ ∃ m, Ev.mut c'.id m ∈ evs
+  | [], s, c', hc, ht => Or.inl ⟨c', hc, rfl, ht⟩
+  | e :: t, s, c', hc, ht => by
+    rcases touched_runFrom t (step P s e) c' hc ht with ⟨c, hc1, hid, hct⟩ | ⟨m, hm⟩
+    · rcases stable_step P s e c hc1 hct with ⟨c0, h0, hid0, ht0⟩ | ⟨m, hm⟩
+      · exact Or.inl ⟨c0, h0, by rw [hid0, hid], ht0⟩
+      · exact Or.inr ⟨m, by rw [← hid, hm]; exact List.mem_cons_self⟩
+    · exact Or.inr ⟨m, List.mem_cons_of_mem _ hm⟩
 
 /-! ### reading the log -/
 
